@@ -434,6 +434,17 @@ func run(c *fw.Ctx, idx int) {
 	checkDelivered(c, "single", cfg, t, p, plain)
 	checkSinglePin(c, cfg, p, allocs, plain)
 
+	// 1b. the same content as a CAR file (format=car), and a one-chunk raw-leaves file whose root is a raw block
+	carFamily(ctx, c, r, "car", cfg, t, p, allocs, plain)
+	{
+		pt := *p
+		pt.RawLeaves, pt.CidVersion, pt.Wrap, pt.Shard = true, 1, false, false
+		tt := &tree{file: genBytes(r, r.Range(0, 20))}
+		if tp := doAdd(ctx, tt, &pt, allocs, 0, false); tp.err == nil {
+			carFamily(ctx, c, r, "car-one-block", cfg, tt, &pt, allocs, tp)
+		}
+	}
+
 	// 2. reference importer (single file, not wrapped)
 	if t.dir == nil && !p.Wrap {
 		ref, err := referenceRoot(t.file, p)
